@@ -170,9 +170,13 @@ pub fn weigh_v(v: &V) -> u32 {
     }
 }
 
+/// While set, `Clone` of every value panics (a lookup of the concurrent cache whose clone of
+/// the stored value fails; sequential engines only).
+pub static CLONE_PANICS_NOW: std::sync::atomic::AtomicBool = std::sync::atomic::AtomicBool::new(false);
+
 impl Clone for V {
     fn clone(&self) -> Self {
-        if self.w == W_CLONE_PANICS {
+        if self.w == W_CLONE_PANICS || CLONE_PANICS_NOW.load(SeqCst) {
             panic!("{CB_MARK}: clone");
         }
         V::new(self.id, self.w)
